@@ -1,7 +1,7 @@
 CLAIM = "wip"
 ASSUMPTIONS = []
 LIST_UNITS = ["src/list.c", "src/safe.c"]
-OM = {"out_vformat.4": 90, "out_vformat.0": 3, "out_vformat.1": 4, "out_vformat.2": 4, "out_vformat.3": 3, "out_strlen.0": 41, "out_pad.0": 12, "out_str.0": 58, "out_str.1": 41, "out_hex.0": 9, "out_hex.1": 9, "out_hex.2": 9}
+OM = {"out_vformat.4": 90, "out_vformat.0": 3, "out_vformat.1": 4, "out_vformat.2": 4, "out_vformat.3": 3, "out_strlen.0": 41, "out_pad.0": 12, "out_str.0": 58, "out_str.1": 41, "out_hex.0": 9, "out_hex.1": 9, "out_hex.2": 9, "lha_arch_vasprintf.0": 65}
 def U(**kw):
     d = dict(OM); d.update(kw); return d
 LISTL = {"sym_header_fill.0": 4, "sym_header_fill.1": 6, "unix_permissions_print.0": 10, "os9_permissions_print.0": 8, "safe_output.0": 12,
